@@ -17,11 +17,12 @@ from concurrent.futures import ThreadPoolExecutor
 
 HERE = os.path.dirname(os.path.dirname(os.path.abspath(__file__)))
 sys.path.insert(0, HERE)
-from selftest.mutants import MUTANTS  # noqa: E402
+from selftest.mutants import BENIGN, MUTANTS  # noqa: E402
 
 
 def apply(root, m):
     subs = [dict(file=m["file"], old=m["old"], new=m["new"])] + [dict(file=m["file"], **e) for e in m.get("extra", [])]
+    subs += list(m.get("extra_files", []))
     for s in subs:
         p = os.path.join(root, s["file"])
         text = open(p).read()
@@ -71,8 +72,12 @@ def main():
     ap.add_argument("--repo", default="/repo")
     ap.add_argument("-j", type=int, default=3)
     ap.add_argument("--json", default="")
+    ap.add_argument("--benign", action="store_true", help="run the behaviour-preserving refactorings against ALL checks (none may fire)")
     args = ap.parse_args()
-    muts = [m for m in MUTANTS if not args.only or m["name"] in args.only.split(",")]
+    pool = BENIGN if args.benign else MUTANTS
+    if args.benign and not args.all_checks:
+        args.all_checks = ",".join("C%02d" % i for i in range(1, 19))
+    muts = [m for m in pool if not args.only or m["name"] in args.only.split(",")]
     # evidence files of /verif are overwritten by these runs: callers re-run the real checks afterwards
     results = []
     with ThreadPoolExecutor(args.j) as ex:
@@ -80,6 +85,11 @@ def main():
             results.append(r)
             caught = [c for c, v in r["checks"].items() if v["rc"] == 1]
             missed = [c for c in r["expect"] if r["checks"].get(c, {}).get("rc") != 1]
+            alarms = [c for c, v in r["checks"].items() if v["rc"] != 0]
+            if args.benign and "error" not in r:
+                print(f"{r['name']:36s} tests={r.get('tests', '-'):5s} " + ("SILENT (ok)" if not alarms else "FALSE ALARM / INCONCLUSIVE: " +
+                      " ".join(f"{c}:rc{r['checks'][c]['rc']}{r['checks'][c]['mechanisms']}" for c in alarms)), flush=True)
+                continue
             status = "ERROR " + r["error"] if "error" in r else ("caught" if caught and not missed else ("MISSED " + ",".join(missed) if missed else "not-caught(as expected)"))
             print(f"{r['name']:32s} tests={r.get('tests', '-'):5s} {status:28s} " +
                   " ".join(f"{c}:rc{v['rc']}{v['mechanisms']}" for c, v in r["checks"].items()), flush=True)
